@@ -69,6 +69,12 @@ fn is_ip_literal(host: &str) -> bool {
     host.starts_with('[') || host.parse::<std::net::Ipv4Addr>().is_ok()
 }
 
+/// Order of the builder calls for cases that go through `Client::builder()` (see ClientCfg::order):
+/// a function of the case, so that the enumerated grid covers every order.
+fn order_of(c: &TlsCase) -> u8 {
+    (crate::rng::fnv1a(format!("{}{}{:?}{:?}{:?}", c.scheme, c.host, c.port, c.cert, c.peer).as_bytes()) % 24) as u8
+}
+
 fn uri_of(c: &TlsCase) -> String {
     match c.port {
         Some(p) => format!("{}://{}:{}/r/1/tls?q=1", c.scheme, c.host, p),
@@ -166,7 +172,7 @@ impl TlsSim {
                         let _ = run_server(acc, ServerProto::Auto, cfg, ctx, SimExecutor::default(), None).await;
                     }));
                 }
-                let cfg = super::ClientCfg { pool: true, idle_timeout_ms: None, max_idle: 32, continue_after_preemption: true, alpn_h2: false, timeout_ms: Some(20_000) };
+                let cfg = super::ClientCfg { pool: true, idle_timeout_ms: None, max_idle: 32, continue_after_preemption: true, alpn_h2: false, timeout_ms: Some(20_000), order: order_of(case) };
                 let svc = super::build_client(&net, &cfg, true);
                 let send = |u: String, id: u32| {
                     let svc = svc.clone();
@@ -353,7 +359,7 @@ impl Scenario for TlsSim {
                 // ---- the client attempt
                 let attempt = async {
                     if case.via_client {
-                        let cfg = super::ClientCfg { pool: true, idle_timeout_ms: None, max_idle: 32, continue_after_preemption: true, alpn_h2: case.client_alpn_h2, timeout_ms: Some(20_000) };
+                        let cfg = super::ClientCfg { pool: true, idle_timeout_ms: None, max_idle: 32, continue_after_preemption: true, alpn_h2: case.client_alpn_h2, timeout_ms: Some(20_000), order: order_of(case) };
                         let svc = super::build_client(&net, &cfg, true);
                         let req = http::Request::builder()
                             .method("GET")
